@@ -63,7 +63,7 @@ def run(ctx) -> None:
     ctx.floor("await_sites", 45)
     ctx.floor("async_for_sites", 15)
     ctx.floor("async_with_sites", 10)
-    ctx.floor("standins", 8)
+    ctx.floor("standins", 4)  # (names may be merged or replaced by refactorings; R17.3 decides, R17.4 is the cross-reference)
 
 
 def r17_1(ctx) -> None:
